@@ -30,7 +30,7 @@ m = {
     "setup_cmd": "./check --setup",
     "hooks": {
         "guard": "cargo feature verif-hooks",
-        "enable": "the harness depends on allsorts with features [\"verif-hooks\", \"prince\"] (harness/Cargo.toml); every check is built that way",
+        "enable": "harness/Cargo.toml: default feature `hooks` = allsorts/verif-hooks; every check is built that way (only the Miri sample in C14's thorough tier is additionally built without it)",
         "baseline_off_cmd": "cd /repo && cargo test --workspace --no-fail-fast --offline",
         "source_commits": hooks,
         "add_only": True,
